@@ -83,6 +83,9 @@ Definition onlineTransition : list T :=
   [TRd FHostOnline; TWr FMacOnline; TWr FHostOnline; TWr FHostDirty;
    TRd FMacIPs; TWr FMacIPs; TRd FMacHostList; TRd FHostOnline; TWr FHostOnline; TWr FHostDirty].
 
+(* layer_frame.go hostOnline: Online test and onlineTransition under the row lock (repaired, was no lock) *)
+Definition hostOnline : list T := [TAcq LRow MW; TRd FHostOnline] ++ onlineTransition ++ [TRel LRow].
+
 (* hosttable.go:44 Host.FastLog has a VALUE receiver: Struct(host) copies the whole Host *)
 Definition hostFastLog : list T :=
   [TRd FHostOnline; TRd FHostHuntStage; TRd FHostLastSeen; TRd FHostManuf; TRd FHostNames; TRd FHostDirty;
@@ -93,30 +96,37 @@ Definition macFastLog : list T :=
   [TRd FMacCaptured; TRd FMacOnline; TRd FMacIPs; TRd FMacIP4Offer; TRd FMacHostList; TRd FMacLastSeen;
    TRd FMacManuf; TRd FMacNames].
 
-(* hosttable.go:89-100 printHostTable: caller holds the session lock; no row lock *)
+(* hosttable.go printHostTable: caller holds the session lock; each entry's hosts are printed under its
+   row read lock (repaired, was no row lock) *)
 Definition printHostTable : list T :=
-  [TRd FMACTable; TRd FMacHostList] ++ hostFastLog ++ [TRd FHostTable].
+  [TRd FMACTable; TAcq LRow MR; TRd FMacHostList] ++ hostFastLog ++ [TRel LRow; TRd FHostTable].
 
 (* hosttable.go:156-171 deleteHost + mactable.go:75,116 : caller holds the session write lock *)
 Definition deleteHost : list T :=
-  [TRd FHostTable; TRd FMacHostList; TWr FMacHostList; TWr FHostTable; TRd FMacHostList; TRd FMACTable; TWr FMACTable].
+  [TRd FHostTable; TAcq LRow MW; TRd FMacHostList; TWr FMacHostList; TRel LRow;   (* unlink under the row lock (repaired) *)
+   TWr FHostTable; TRd FMacHostList; TRd FMACTable; TWr FMACTable].
 
-(* hosttable.go:111-121 fast path of findOrCreateHostWithLock: LastSeen written under the READ lock *)
+(* hosttable.go fast path of findOrCreateHostWithLock: session READ lock, LastSeen written under the row
+   lock (repaired, was under the session read lock only) *)
 Definition findHostFast : list T :=
-  [TAcq LSess MR; TRd FHostTable; TWr FHostLastSeen; TWr FMacLastSeen; TRel LSess].
+  [TAcq LSess MR; TRd FHostTable; TAcq LRow MW; TWr FHostLastSeen; TWr FMacLastSeen; TRel LRow; TRel LSess].
 
 (* hosttable.go:111-154 miss: read-locked lookup, then the write-locked creation *)
 Definition findHostSlow : list T :=
   [TAcq LSess MR; TRd FHostTable; TRel LSess; TAcq LSess MW]
-  ++ printHostTable ++ deleteHost                          (* :129-135 duplicated IP with another MAC *)
-  ++ [TRd FMACTable; TWr FMACTable;                         (* :139 MACTable.findOrCreate *)
-      (* :140-147 the new Host record is initialised here and published through HostTable/HostList *)
+  ++ [TAcq LRow MR] ++ hostFastLog ++ [TRel LRow]          (* duplicated IP: the log line copies the old host under its row lock (repaired) *)
+  ++ printHostTable ++ deleteHost                          (* duplicated IP with another MAC *)
+  ++ [TRd FMACTable; TWr FMACTable;                         (* MACTable.findOrCreate *)
+      TAcq LRow MW;                                         (* the entry's row lock (repaired): creation and linking *)
+      (* the new Host record is initialised here and published through HostTable/HostList *)
       TWr FHostOnline; TWr FHostDirty; TWr FHostManuf; TWr FHostHuntStage; TWr FHostLastSeen; TWr FHostNames;
-      TRd FMacManuf; TWr FMacManuf; TWr FMacLastSeen;       (* :143-148 *)
-      TWr FHostTable; TRd FMacHostList; TWr FMacHostList;   (* :149-152 *)
-      TRel LSess].
+      TRd FMacManuf; TWr FMacManuf; TWr FMacLastSeen;
+      TWr FHostTable; TRd FMacHostList; TWr FMacHostList;
+      TRel LRow; TRel LSess].
 
 Definition fFindIP0 : list T := [TAcq LSess MR; TRd FHostTable; TRel LSess].
+Definition fDHCPv4IPOffer0 : list T :=
+  [TAcq LSess MR; TRd FMACTable; TAcq LRow MR; TRd FMacIP4Offer; TRel LRow; TRel LSess].
 
 (* notification.go:50 sendNotification: check-then-act on len/cap, then send *)
 Definition sendNotification : list T := [TLenCap CNotify; TSend CNotify].
@@ -143,9 +153,11 @@ Definition parseCounters : list T := [TAWr FHeartBeat; TRd FStats; TWr FStats].
 (* session API fragments as called from handlers *)
 Definition fFindIP : list T := [TAcq LSess MR; TRd FHostTable; TRel LSess].
 Definition fIsCaptured : list T := [TAcq LSess MR; TRd FMACTable; TRd FMacCaptured; TRel LSess].
-Definition fDHCPv4IPOffer : list T := [TAcq LSess MR; TRd FMACTable; TRd FMacIP4Offer; TRel LSess].
+(* session.go DHCPv4IPOffer / SetDHCPv4IPOffer: the offer and name are accessed under the row lock too (repaired) *)
+Definition fDHCPv4IPOffer : list T :=
+  [TAcq LSess MR; TRd FMACTable; TAcq LRow MR; TRd FMacIP4Offer; TRel LRow; TRel LSess].
 Definition fSetDHCPv4IPOffer : list T :=
-  [TAcq LSess MW; TRd FMACTable; TWr FMACTable; TWr FMacIP4Offer; TWr FMacNames; TRel LSess].
+  [TAcq LSess MW; TRd FMACTable; TWr FMACTable; TAcq LRow MW; TWr FMacIP4Offer; TWr FMacNames; TRel LRow; TRel LSess].
 Definition fDHCPv4Update : list T :=
   findHostFast ++ findHostSlow
   ++ [TAcq LRow MW; TRd FHostNames; TWr FHostNames; TWr FHostDirty; TRd FMacNames; TWr FMacNames; TRel LRow]
@@ -161,14 +173,14 @@ Definition template (o : op) : tmpl op :=
   match o with
   (* layer_frame.go:152 Parse, host present: findOrCreateHostWithLock hit, then Online test and
      onlineTransition with no lock at all *)
-  | ParseFast => simple (parseCounters ++ findHostFast ++ [TRd FHostOnline] ++ onlineTransition)
-  | ParseSlow => simple (parseCounters ++ findHostSlow ++ [TRd FHostOnline] ++ onlineTransition)
+  | ParseFast => simple (parseCounters ++ findHostFast ++ hostOnline)
+  | ParseSlow => simple (parseCounters ++ findHostSlow ++ hostOnline)
   (* session.go:389 Notify with frame.Host set *)
   | Notify => simple notify
   (* session.go:391-406 Notify for a DHCP frame without host: DHCPv4IPOffer, then FindIP (session read
      lock; repaired by /repo 35be599, was findIP on the map with no lock) *)
   | NotifyDhcp =>
-      simple ([TAcq LSess MR; TRd FMACTable; TRd FMacIP4Offer; TRel LSess] ++ fFindIP0 ++ notify)
+      simple (fDHCPv4IPOffer0 ++ fFindIP0 ++ notify)
   (* session.go:282-360 purge: GetHosts snapshot; per host a row read-locked inspection and (if stale)
      makeOffline; probe goroutine; deletions under the session write lock.
      (The source runs all inspections, spawns the probe, then all makeOffline calls; the per-row
@@ -194,7 +206,9 @@ Definition template (o : op) : tmpl op :=
   (* session.go:513 *)
   | FindMACEntry => simple [TAcq LSess MR; TRd FMACTable; TRel LSess]
   (* session.go:250 + mactable.go:99 + hosttable.go:89 *)
-  | PrintTable => simple ([TAcq LSess MR; TRd FMACTable] ++ macFastLog ++ [TRd FHostTable] ++ printHostTable ++ [TRel LSess])
+  | PrintTable =>
+      simple ([TAcq LSess MR; TRd FMACTable; TAcq LRow MR] ++ macFastLog ++ [TRel LRow; TRd FHostTable]
+              ++ printHostTable ++ [TRel LSess])
   (* session.go:531 *)
   | Capture => simple [TAcq LSess MW; TRd FMACTable; TWr FMACTable; TRd FMacCaptured; TRd FMacIsRouter; TWr FMacCaptured; TRel LSess]
   (* session.go:551 *)
@@ -202,9 +216,10 @@ Definition template (o : op) : tmpl op :=
   (* session.go:521 *)
   | IsCaptured => simple [TAcq LSess MR; TRd FMACTable; TRd FMacCaptured; TRel LSess]
   (* session.go:503 *)
-  | DHCPv4IPOffer => simple [TAcq LSess MR; TRd FMACTable; TRd FMacIP4Offer; TRel LSess]
+  | DHCPv4IPOffer => simple fDHCPv4IPOffer0
   (* session.go:493 *)
-  | SetDHCPv4IPOffer => simple [TAcq LSess MW; TRd FMACTable; TWr FMACTable; TWr FMacIP4Offer; TWr FMacNames; TRel LSess]
+  | SetDHCPv4IPOffer =>
+      simple [TAcq LSess MW; TRd FMACTable; TWr FMACTable; TAcq LRow MW; TWr FMacIP4Offer; TWr FMacNames; TRel LRow; TRel LSess]
   (* session.go:474-489: lookup (either path), UpdateDHCP4Name under the row lock, then IP4Offer and
      onlineTransition under the row lock *)
   | DHCPv4Update => simple fDHCPv4Update
